@@ -784,6 +784,11 @@ func doCheck(prop, tier string, seed uint64, nworkers, maxSec int, noMin bool) i
 		}
 	}
 
+	var race raceSummary
+	if prop == "C06" {
+		race = raceLane(tier, seed)
+		all.harness = append(all.harness, race.Harness...)
+	}
 	sort.Strings(order)
 	nviol := 0
 	knownHits := map[string]int{}
@@ -855,6 +860,29 @@ func doCheck(prop, tier string, seed uint64, nworkers, maxSec int, noMin bool) i
 		vlines = append(vlines, fmt.Sprintf("VIOLATION property=%s replay=%s", prop, path))
 		fmt.Printf("  [%s] %s: %s\n    case: %s\n", rp.Lane, rp.Class, shorten(rp.Detail, 300), shorten(caseBrief(rp.Case), 300))
 	}
+	if len(race.Reports) > 0 {
+		seenIdx := map[int]bool{}
+		for _, r := range race.Reports {
+			if seenIdx[r.Idx] {
+				continue
+			}
+			seenIdx[r.Idx] = true
+			nviol++
+			if len(seenIdx) > 3 {
+				continue
+			}
+			jc := &judgeClient{lane: lanes[0]}
+			rs, _, _ := jc.do(&proto.Request{Op: "describe", Prop: prop, Tier: "quick", Seed: seed, Idx: r.Idx})
+			jc.close()
+			rp := Replay{Property: prop, Lane: fmt.Sprintf("race/GOMAXPROCS=%d", r.Procs), Tier: tier, Seed: seed, Idx: r.Idx, Class: "data-race", Detail: shorten(r.Report, 3000), Case: rs.Case,
+				Note: "race lane (real scheduler, -race build): the replay re-runs this case 50 times under the race detector; reports are true positives but their occurrence is not deterministic"}
+			path := filepath.Join(root, "replays", fmt.Sprintf("%s-%d-race-%d.json", prop, seed, r.Idx))
+			b, _ := json.MarshalIndent(&rp, "", " ")
+			os.WriteFile(path, b, 0o644)
+			vlines = append(vlines, fmt.Sprintf("VIOLATION property=%s replay=%s", prop, path))
+			fmt.Printf("  [race lane, GOMAXPROCS=%d] data race in case %d: %s\n", r.Procs, r.Idx, shorten(strings.ReplaceAll(r.Report, "\n", " | "), 500))
+		}
+	}
 	var kh []string
 	for k := range knownHits {
 		kh = append(kh, k)
@@ -915,6 +943,7 @@ func doCheck(prop, tier string, seed uint64, nworkers, maxSec int, noMin bool) i
 		"index_range_complete":   complete,
 		"exhaustive_subspaces":   tot.Exhaustive,
 		"exhaustive":             false,
+		"race_lane":              raceEvidence(prop, race),
 		"real_code":              []string{"parser (lexer, goyacc tables, grammar actions)", "interp (Eval, Expand, ExecEnv)", "printer", "ast", "pattern"},
 		"stubbed":                []string{"source reader (SimReader/SimByteReader)", "output writer (SimWriter)", "goroutine scheduling choice (verifYield hooks + synctest quiescence)", "select tie in emit (forced from the tape)"},
 		"pinned":                 []string{"environment (scrubbed)", "pid ($$ never generated)", "cwd (empty scratch dir)"},
@@ -1006,6 +1035,22 @@ func doReplay(path string) int {
 		fmt.Fprintln(os.Stderr, "HARNESS: bad replay file:", err)
 		return 2
 	}
+	if rp.Class == "data-race" {
+		procs := 2
+		fmt.Sscanf(rp.Lane, "race/GOMAXPROCS=%d", &procs)
+		rs, _, h := runRaceProc(rp.Seed, rp.Idx+1, 0, 1, rp.Idx, procs, 50)
+		if h != "" {
+			fmt.Fprintln(os.Stderr, "HARNESS:", h)
+			return 2
+		}
+		if len(rs) > 0 {
+			fmt.Printf("replay: %d race reports in 50 executions; first:\n%s\n", len(rs), rs[0].Report)
+			fmt.Printf("VIOLATION property=%s replay=%s\n", rp.Property, path)
+			return 1
+		}
+		fmt.Println("replay: no race report in 50 executions (this lane is not deterministic)")
+		return 0
+	}
 	var lane laneSpec
 	for _, l := range lanesFor(rp.Property) {
 		if l.Name == rp.Lane {
@@ -1063,9 +1108,9 @@ func doReplay(path string) int {
 func wantedProbes(prop string) []string {
 	switch prop {
 	case "C06":
-		return []string{"nested-lexer", "hdwait", "join", "bailout"}
+		return []string{"nested-lexer", "nested-lexer-depth>=2", "join", "cancel-closed-by-parser", "cancel-closed-by-lexer"}
 	case "C08":
-		return []string{"hdwait", "nested-lexer"}
+		return []string{"nested-lexer"}
 	}
 	return nil
 }
@@ -1086,4 +1131,110 @@ func exhaustiveSpaces(prop, tier string, lanes int, byKind map[string]int) map[s
 		out[name] = map[string]interface{}{"size": size, "covered_per_lane": covered, "complete": covered >= size}
 	}
 	return out
+}
+
+// ---------------------------------------------------------------- race lane (C06, lane R1)
+
+type raceReport struct {
+	Idx    int
+	Procs  int
+	Report string
+}
+
+var raceBin = filepath.Join(root, ".build", "race.test")
+
+func runRaceProc(seed uint64, n, shard, nsh, only, procs, count int) (reports []raceReport, cases int, harness string) {
+	job := fmt.Sprintf(`{"seed":%d,"n":%d,"shard":%d,"nshards":%d,"only":%d}`, seed, n, shard, nsh, only)
+	cmd := exec.Command(raceBin, "-test.run", "^TestRaceLane$", "-test.timeout", "0", "-test.count", strconv.Itoa(count))
+	cwd := filepath.Join(root, ".build", "cwd")
+	os.MkdirAll(cwd, 0o755)
+	cmd.Dir = cwd
+	cmd.Env = []string{"PATH=/usr/bin:/bin", "HOME=/nonexistent", "GODEBUG=panicnil=1", "GORACE=halt_on_error=0 exitcode=0", fmt.Sprintf("GOMAXPROCS=%d", procs), "VERIF_RACE_JOB=" + job}
+	out, err := cmd.CombinedOutput()
+	text := string(out)
+	cur := -1
+	lines := strings.Split(text, "\n")
+	for i := 0; i < len(lines); i++ {
+		l := lines[i]
+		switch {
+		case strings.HasPrefix(l, "CASE "):
+			cur, _ = strconv.Atoi(strings.TrimSpace(l[5:]))
+			cases++
+		case strings.HasPrefix(l, "WARNING: DATA RACE"):
+			j := i + 1
+			for j < len(lines) && !strings.HasPrefix(lines[j], "==================") {
+				j++
+			}
+			block := strings.Join(lines[i:j], "\n")
+			if strings.Contains(block, "github.com/hattya/go.sh/") {
+				reports = append(reports, raceReport{Idx: cur, Procs: procs, Report: block})
+			}
+			i = j
+		case strings.HasPrefix(l, "HANG"):
+			harness = fmt.Sprintf("race lane: case %d did not finish within 20 s", cur)
+		}
+	}
+	if err != nil && harness == "" && !strings.Contains(text, "DONE ") {
+		harness = "race lane process failed: " + err.Error() + ": " + lastLines(text, 6)
+	}
+	return
+}
+
+type raceSummary struct {
+	Cases   int
+	Procs   []int
+	Reports []raceReport
+	Harness []string
+	WallS   float64
+}
+
+func raceLane(tier string, seed uint64) raceSummary {
+	start := time.Now()
+	n := 1500
+	if tier == "thorough" {
+		n = 20000
+	}
+	var sum raceSummary
+	sum.Procs = []int{1, 2, 16}
+	var mu sync.Mutex
+	var wg sync.WaitGroup
+	const nsh = 5
+	for _, procs := range sum.Procs {
+		for sh := 0; sh < nsh; sh++ {
+			wg.Add(1)
+			go func(procs, sh int) {
+				defer wg.Done()
+				rs, cases, h := runRaceProc(seed, n, sh, nsh, -1, procs, 1)
+				mu.Lock()
+				sum.Reports = append(sum.Reports, rs...)
+				sum.Cases += cases
+				if h != "" {
+					sum.Harness = append(sum.Harness, h)
+				}
+				mu.Unlock()
+			}(procs, sh)
+		}
+	}
+	wg.Wait()
+	sort.Slice(sum.Reports, func(i, j int) bool {
+		if sum.Reports[i].Idx != sum.Reports[j].Idx {
+			return sum.Reports[i].Idx < sum.Reports[j].Idx
+		}
+		return sum.Reports[i].Procs < sum.Reports[j].Procs
+	})
+	sum.WallS = time.Since(start).Seconds()
+	return sum
+}
+
+func raceEvidence(prop string, r raceSummary) interface{} {
+	if prop != "C06" {
+		return "not applicable to this property"
+	}
+	return map[string]interface{}{
+		"kind":            "R1: -race build, real Go scheduler, verifYield hooks used only for timing perturbation; supplementary, not replayable",
+		"gomaxprocs":      r.Procs,
+		"case_executions": r.Cases,
+		"reports":         len(r.Reports),
+		"wall_s":          r.WallS,
+	}
 }
